@@ -1,6 +1,6 @@
 (* executable wrappers comparing the C16 model (binary64 index tables) with observations of the implementation *)
 From Coq Require Import ZArith List Bool PrimFloat.
-From PR Require Import Base.Num Base.F64 Base.ListX Model.Boundary.
+From PR Require Import Base.Num Base.F64 Base.ListX Model.Boundary Gen.GenC16.
 Import ListNotations.
 Open Scope Z_scope.
 
@@ -15,9 +15,16 @@ Definition f_sides (h w : Z) (vps : option Z) : list (list pix) := bbox_sides f_
 Definition chk_linspace (c : Z * Z * Z * list Z) : bool :=
   let '(start, stop, num, exp) := c in list_eqb Z.eqb (linspace_int F64 start stop (Z.to_nat num)) exp.
 
-(* _get_bbox_slices (negative indices resolved by the harness) *)
+(* the definition regenerated from /repo's _get_bbox_slices, negative indices resolved as Python does *)
+Definition g_sides (h w : Z) (vps : option Z) : list (list pix) :=
+  resolve_slices h w (match vps with
+                      | Some v => gen_bbox_slices_some F64 (mk_geom (h, w)) v
+                      | None => gen_bbox_slices_none F64 (mk_geom (h, w)) tt
+                      end).
+
+(* _get_bbox_slices (negative indices resolved by the harness): the model and the generated definition *)
 Definition chk_slices (c : Z * Z * option Z * list (list pix)) : bool :=
-  let '(h, w, vps, exp) := c in sides_eqb (f_sides h w vps) exp.
+  let '(h, w, vps, exp) := c in sides_eqb (f_sides h w vps) exp && sides_eqb (g_sides h w vps) exp.
 
 (* one geometry: the pixel indices of
      get_bbox_lonlats(force_clockwise=False), get_bbox_lonlats(force_clockwise=True),
@@ -58,3 +65,11 @@ Definition chk_nan (c : Z * Z * option Z * list pix * list pix * option (list (l
 Definition chk_geos (c : Z * list (list Z)) : bool :=
   let '(n, exp) := c in
   list_eqb (list_eqb Z.eqb) (geos_sides (map Z.of_nat (seq 0 (Z.to_nat n)))) exp.
+
+(* AreaBoundary.decimate: positions kept of a side of L vertices *)
+Definition chk_decimate (c : Z * Z * list Z) : bool :=
+  let '(L, ratio, exp) := c in list_eqb Z.eqb (decimate_idx L ratio) exp.
+
+(* get_boundary_lonlats: the complete sides *)
+Definition chk_full_sides (c : Z * Z * list (list pix)) : bool :=
+  let '(h, w, exp) := c in sides_eqb (full_sides h w) exp && sides_eqb (f_sides h w None) exp.
